@@ -273,6 +273,7 @@ def c10(run, vc):
     s = vc.replay(vecs, "c10", tables, profiles="5")
     run.add_replay(s, "commit-challenge-response and timestamp proofs: every scheme, challenge kind, single-component perturbation, delay class vs timeout (virtual clock hook), every timestamp class", vecs,
                    lambda v: v["pert"] != "none" or v.get("y") == "zero" or (v["act"] == "PokTs" and v["tau"] >= 0))
+    _trace_proto(run, vc, tables, 1500 if tier == "quick" else 12000)
     return run.finish(rule="vectors = every Pok and PokTs transition: keys x messages x 3 schemes x challenge kinds {from bytes, from hash, random, zero} x perturbations of (u, v, y, msg, pk, label) ; timestamp proofs x perturbations incl. timestamp {past, future, 0, u64::MAX} x delay classes {0, tau-1, tau, tau+1, >>tau} x timeouts incl. none; non-trivial = any perturbation, zero challenge, or a timeout in force",
                       assumptions=["symbolic model; Hy is a random oracle", "virtual clock hook (--cfg blsful_verif) replaces SystemTime::now in the two timestamp functions"])
 
